@@ -280,8 +280,7 @@ func confStateOnlyFromRaft(c *Ctx, r *Report, rule string) {
 func sizeLimitMeasuresEntries(c *Ctx, r *Report, rule string) {
 	n := 0
 	for _, f := range prodFuncs(c, "storage/wal") {
-		root := rootFn(f)
-		if root.Name() != "getEntries" && root.Name() != "Entries" {
+		if !measuresEntries(f) {
 			continue
 		}
 		for _, ifi := range allIfs(f) {
@@ -289,19 +288,7 @@ func sizeLimitMeasuresEntries(c *Ctx, r *Report, rule string) {
 			if !ok || (b.Op != token.GTR && b.Op != token.LSS && b.Op != token.GEQ && b.Op != token.LEQ) {
 				continue
 			}
-			isMax := func(v ssa.Value) bool {
-				for _, o := range origins(v, originOpt{}) {
-					if p, ok := o.(*ssa.Parameter); ok && strings.Contains(strings.ToLower(p.Name()), "max") {
-						return true
-					}
-					if l, ok := loadOf(o); ok {
-						if fv, ok := l.(*ssa.FreeVar); ok && strings.Contains(strings.ToLower(fv.Name()), "max") {
-							return true
-						}
-					}
-				}
-				return false
-			}
+			isMax := isSizeLimitOperand
 			var sizeSide ssa.Value
 			if isMax(b.Y) {
 				sizeSide = b.X
@@ -748,4 +735,72 @@ func locksReleasedOnEveryReturn(c *Ctx, r *Report, rule string, pkgs ...string) 
 	if leaks == 0 {
 		r.OK(rule, strings.Join(pkgs, ","), "no-lock-leak", "-", fmt.Sprintf("%d functions take a mutex; every return is reached with all of them released or released by a defer", n))
 	}
+}
+
+// measuresEntries: the function (or closure) is part of the entry scan: it decodes raft entries (Entry.Unmarshal) or asks
+// for their size; the scan may live in getEntries, in its closure, or in a helper it was moved to.
+func measuresEntries(f *ssa.Function) bool {
+	hit := false
+	for _, h := range append([]*ssa.Function{f}, closuresOf(f)...) {
+		eachInstr(h, func(i ssa.Instruction) {
+			if cl, ok := i.(*ssa.Call); ok {
+				id := callID(&cl.Call)
+				if (id.Name == "Size" || id.Name == "Unmarshal") && id.Recv == "Entry" {
+					hit = true
+				}
+			}
+		})
+	}
+	if f.Parent() != nil && !hit {
+		return measuresEntries(f.Parent())
+	}
+	return hit
+}
+
+// isSizeLimitOperand: the operand is the caller's byte limit: an unsigned integer parameter (of this function, or captured
+// from the enclosing one) that is not an entry index — told apart by use: it is compared, never used to build a key.
+func isSizeLimitOperand(v ssa.Value) bool {
+	for _, o := range origins(v, originOpt{}) {
+		var p ssa.Value
+		if q, ok := o.(*ssa.Parameter); ok {
+			p = q
+		}
+		if l, ok := loadOf(o); ok {
+			if fv, ok := l.(*ssa.FreeVar); ok {
+				p = fv
+			}
+		}
+		if p == nil {
+			continue
+		}
+		t := p.Type()
+		if pt, ok := t.Underlying().(*types.Pointer); ok {
+			t = pt.Elem()
+		}
+		if b, ok := t.Underlying().(*types.Basic); !ok || b.Kind() != types.Uint64 {
+			continue
+		}
+		// an index parameter flows into a key constructor call; the limit does not
+		usedForKey := false
+		var refs []ssa.Instruction
+		if p.Referrers() != nil {
+			refs = append(refs, *p.Referrers()...)
+		}
+		for k := 0; k < len(refs) && k < 64; k++ {
+			switch u := refs[k].(type) {
+			case *ssa.Call:
+				if g := u.Call.StaticCallee(); g != nil && g.Signature.Results().Len() == 1 && g.Signature.Results().At(0).Type().String() == "[]byte" {
+					usedForKey = true
+				}
+			case *ssa.UnOp:
+				if u.Referrers() != nil {
+					refs = append(refs, *u.Referrers()...)
+				}
+			}
+		}
+		if !usedForKey {
+			return true
+		}
+	}
+	return false
 }
